@@ -92,11 +92,14 @@ func exploreSpaces[T any](r *Run, d *Driver[T], sps []space, or Oracles, mod fun
 			if mod != nil {
 				mod(&cfg)
 			}
+			if or.Extension && cfg.EndMode {
+				continue // the statement exempts the end-of-input modes from "no premature verdicts"
+			}
 			ff := sp.finalFlags
 			if or.Extension && !or.Schedule {
 				ff = nil
 			}
-			es = append(es, &Explorer[T]{Run: r, Prop: r.Prop, Drv: d, Gen: sp.gen, Cfg: cfg, Or: or, BeyondErr: sp.beyondErr, BeyondOk: sp.beyondOk,
+			es = append(es, &Explorer[T]{Run: r, Prop: r.Prop, Drv: d, Gen: sp.gen, Cfg: cfg, Or: or, Realloc: !or.Extension, BeyondErr: sp.beyondErr, BeyondOk: sp.beyondOk,
 				FinalFlags: ff, SplitDepth: sp.split, Probes: probeAll})
 			cs = append(cs, cfg.String())
 		}
